@@ -416,6 +416,40 @@ pub fn run(tier: Tier) -> i32 {
 }
 
 pub fn replay(case: &Value) -> i32 {
-    println!("C16 replay of {}: index files are regenerated by the check itself; re-running the quick tier", case);
-    run(Tier::Quick)
+    // the index files are regenerated from the recorded vertex set / edge set; the whole set is run again (all query
+    // points, tolerances and filters), the recorded query among them
+    let c = if case.get("case").is_some() { &case["case"] } else { case };
+    let scratch = Scratch::new("c16r");
+    let mut st = Stats::new();
+    match c["kind"].as_str() {
+        Some("edge") => {
+            let si = c["edge_set"].as_u64().unwrap_or(0) as usize;
+            if si >= edge_sets().len() {
+                println!("MACHINERY-ERROR edge set {} does not exist", si);
+                return 2;
+            }
+            check_edges(&scratch, si, Tier::Thorough, &mut st);
+        }
+        Some("vertex") => {
+            let mask = c["lattice_vertices"].as_array().map(|a| a.iter().filter_map(|v| v.as_u64()).fold(0u32, |m, v| m | (1 << v))).unwrap_or(0);
+            if mask == 0 {
+                println!("MACHINERY-ERROR no vertex set in the case");
+                return 2;
+            }
+            check_vertex(&scratch, mask, Tier::Thorough, &mut st);
+        }
+        _ => {
+            println!("C16 replay: unknown kind of case; re-running the quick tier");
+            return run(Tier::Quick);
+        }
+    }
+    for (k, g) in st.violations.iter() {
+        println!("REPLAY-VIOLATION {} ({} cases) {}", k, g.count, g.detail);
+    }
+    println!("replay: {} violated clauses over {} plugin invocations", st.violations.len(), st.evaluations);
+    if st.violations.is_empty() {
+        0
+    } else {
+        1
+    }
 }
